@@ -259,6 +259,9 @@ func (l *ledger) tallyErrOf(h common.Hash, x common.Address) *big.Int {
 	if d == nil {
 		d = new(big.Int)
 	}
+	if pd, ok := l.paidDeposit(h, x); ok {
+		d = pd // the deposit PAID by construction (c05_profile.go), not the one the profile records
+	}
 	e := new(big.Int).Sub(v.votes, new(big.Int).Div(d, depositRateLit))
 	for _, a := range l.univ {
 		w := l.view(h, a)
